@@ -1,4 +1,4 @@
-(** * C04 — Relation targets stay consistent; removing a target detaches, never corrupts.  (partial only for histories with observers / registered filters / batch operations: see the end of this comment)
+(** * C04 — Relation targets stay consistent; removing a target detaches, never corrupts.  (partial only for histories with observers / batch operations / operations after Reset: see the end of this comment; histories with filters, registrations and queries are covered by Rel2HistQ, see the end of the file)
 
     Proved here are the MECHANISM lemmas that keep relation targets valid, in general worlds:
     - table creation validates every relation before changing anything: a target that is neither
@@ -62,6 +62,7 @@
     archetype left without table, and earlier 875e7f0); see known_findings.json. *)
 From Ark Require Import Model.Base Model.Mask Model.Pool Model.Util Model.World Model.Run.
 From Ark Require Import Proofs.WF Proofs.StorageA Proofs.StorageBDefs Proofs.RelProofs Proofs.Rel2Defs Proofs.Rel2Struct Proofs.Rel2Remove Proofs.Rel2SetRel Proofs.Rel2Maint Proofs.StorageC Proofs.Rel2Hist Properties.Common.
+From Ark Require Import Proofs.Rel2HistQ.
 
 Theorem C04_create_table_rejects_invalid : forall s aid a rels,
   nth_error (w_archs s) aid = Some a ->
@@ -243,7 +244,36 @@ Proof. exact reachable_reset_succeeds. Qed.
 
 Definition C04_history_examples := (r2e_script_inv, r2e_reset_refuted_table).
 
-Definition C04_all := (C04_invariant_after_every_history, C04_step_preserves_invariant, C04_targets_always_zero_or_alive,
+
+(** ** Over the larger class of histories WITH filters, Register / Unregister and queries (locked states
+    included), Rel2HistQ: the relation invariant after every such history; targets zero or alive; removing a
+    live target in an unlocked reachable state detaches exactly its dependants, in a locked one it is rejected. *)
+Theorem C04_invariant_after_every_history_with_queries : forall c lines,
+  cfg_ok2 c -> Forall (rel_q_line (sc_kinds c)) lines -> length lines + 4 < Nat.pow 2 31 ->
+  Inv2Q (Properties.Common.exec c lines) (length lines).
+Proof. exact reachable_inv2Q. Qed.
+
+Theorem C04_targets_always_zero_or_alive_with_queries : forall c lines e cmp x,
+  cfg_ok2 c -> Forall (rel_q_line (sc_kinds c)) lines -> length lines + 4 < Nat.pow 2 31 ->
+  tgt (Properties.Common.exec c lines) e cmp = Some x ->
+  x = zero_ent \/ live (Properties.Common.exec c lines) x = true.
+Proof. exact targets_always_zero_or_alive_Q. Qed.
+
+Theorem C04_remove_target_detaches_with_queries : forall c lines h x,
+  cfg_ok2 c -> Forall (rel_q_line (sc_kinds c)) lines -> length lines + 4 < Nat.pow 2 31 ->
+  let s := Properties.Common.exec c lines in
+  is_locked s = false -> handle s h = Some x -> live s x = true ->
+  exists s', step_op (sc_debug c) (ORemoveEntity h) s = Ok [] s' /\ St2 s' /\ live s' x = false /\
+    forall e, e <> x -> live s' e = live s e /\ (forall cmp, val s' e cmp = val s e cmp) /\
+      (forall cmp, tgt s' e cmp = r2c_detached x (tgt s e cmp)).
+Proof. exact remove_target_detaches_Q. Qed.
+
+Theorem C04_remove_target_rejected_when_locked : forall c lines h,
+  Forall (rel_q_line (sc_kinds c)) lines -> is_locked (Properties.Common.exec c lines) = true ->
+  exists er, step_op (sc_debug c) (ORemoveEntity h) (Properties.Common.exec c lines) = Err er (Properties.Common.exec c lines).
+Proof. exact remove_target_locked_rejected_Q. Qed.
+
+Definition C04_all := (C04_invariant_after_every_history_with_queries, C04_targets_always_zero_or_alive_with_queries, C04_remove_target_detaches_with_queries, C04_remove_target_rejected_when_locked, C04_invariant_after_every_history, C04_step_preserves_invariant, C04_targets_always_zero_or_alive,
   C04_remove_target_detaches_history, C04_target_is_last_assigned, C04_stale_handle_rejected, C04_reset_succeeds, C04_history_examples,
   C04_targets_zero_or_alive, C04_remove_entity, C04_remove_fails_only_for_dead, C04_remove_target_detaches,
   C04_set_relations, C04_get_or_create_table, C04_create_table, C04_checker_sound, C04_relation_examples,
